@@ -39,6 +39,9 @@ func initTemplates(apiRefCollector *common.APIReferenceCollector, extraTemplates
 			"formatRawType": func(_ ast.Type) string {
 				panic("formatRawType() needs to be overridden by a jenny")
 			},
+			"formatRuntimeClass": func(_ ast.Type) string {
+				panic("formatRuntimeClass() needs to be overridden by a jenny")
+			},
 			"formatRawTypeNotNullable": func(_ ast.Type) string {
 				panic("formatRawTypeNotNullable() needs to be overridden by a jenny")
 			},
